@@ -34,7 +34,7 @@ func buildC09World(c *h.Ctx, nClients int) *c09World {
 	shared := rnd(c, 48) // origins 0 and 1 share an index key -> same issuer origin id
 	origins := []string{"a.example", "b.example", "c.example"}
 	env := newT3(c, 0, rnd(c, 32), map[string][]byte{origins[0]: shared, origins[1]: shared, origins[2]: rnd(c, 48)})
-	w := &c09World{anons: [][]byte{rnd(c, 32), rnd(c, 32)}}
+	w := &c09World{anons: [][]byte{rnd(c, 32), rnd(c, 32), {}}} // the third anonymous origin ID is EMPTY (an absent header)
 	for ci := 0; ci < nClients; ci++ {
 		cl := &c09Client{secret: rnd(c, 48)}
 		client := type3.NewRateLimitedClientFromSecret(cl.secret)
@@ -82,7 +82,7 @@ func (w *c09World) alphabet(nClients int) []c09Op {
 	for c := 0; c < nClients; c++ {
 		a = append(a, c09Op{'R', c, 0, 0}, c09Op{'B', c, 0, 0})
 		for o := 0; o < 3; o++ {
-			for an := 0; an < 2; an++ {
+			for an := 0; an < len(w.anons); an++ {
 				a = append(a, c09Op{'F', c, o, an})
 			}
 		}
